@@ -401,7 +401,7 @@ Fixpoint run (fuel : nat) (m : mode) (s : st) (calls : Z) : mode * st * Z :=
       end
   end.
 
-Definition fuel_for (items : list item) : nat := 5 * length items + 3.
+Definition fuel_for (items : list item) : nat := (5 * List.length items + 3)%nat.
 
 Record lexed := mk_lexed { l_done : bool; l_toks : list tok; l_reads : Z; l_calls : Z }.
 
